@@ -13,8 +13,7 @@ from harness.impl import c18run as R
 
 IMPORTS = "From Ford Require Import Base.Str Out.Names Lex.Mask Gen.EscapeSites Out.Escape Corr.C18."
 THEOREMS = ["C18_mask_spec", "C18_mask_roundtrip", "C18_unmask_any_code", "C18_escape_inert",
-            "C18_sites_classified", "C18_sites_escaped_partial", "C18_known_sites_exact",
-            "C18_sites_escaped_refuted"]
+            "C18_sites_classified", "C18_sites_escaped", "C18_escape_text_inert"]
 NB = "\xa0"
 VIEW_CORPUS = ["k<n))", "a<b>c", "s<u>name", "x < y", "1<2", "a&b", "&lt;", "<)", "<b", "a<b c", "<i>",
                "merge(2,3,k<n)) :: x>", "plain text", "a > b", "&amp;&#39;", "k<=n", "<<b>>"]
@@ -33,7 +32,7 @@ def tr(x):
 def known_unescaped_keys():
     text = (core.COQ / "theories" / "Out" / "Escape.v").read_text()
     body = text[text.index("Definition known_unescaped"):]
-    body = body[:body.index("].")]
+    body = body[:body.index(".\n")]
     return [m.replace('""', '"') for m in re.findall(r's "((?:[^"]|"")*)"', body)]
 
 
@@ -106,6 +105,9 @@ def unit_cases(chk, rng, n):
     vals = {v.name: v.initial for v in mod.variables} if mod is not None else {}
     for name, e in pst:
         out = vals.get(name)
+        out = None if out is None else tr(out)
+        if out is not None and not core.is_ascii(out):
+            continue
         add(f"CParamStmt {coq_str(name)} {coq_str(e)} {coq_opt(out, coq_str)}",
             {"f": "parameter-statement", "name": name, "expr": e, "impl": out})
     # --- the e filter and the HTML reader
@@ -117,6 +119,10 @@ def unit_cases(chk, rng, n):
         add(f"CEscape {coq_str(x)} {coq_str(out)}", {"f": "escape", "x": x, "impl": out}, nontrivial=x != out)
         text, nt = R.html_view(out)
         add(f"CView {coq_str(out)} {coq_str(text)} {nt}", {"f": "html-view", "x": out, "text": text, "tags": nt})
+    for _ in range(n // 2):
+        x = "".join(rng.choice("<>&\"'\\ abk(),=1") for _ in range(rng.choice([0, 1, 3, 6, 12])))
+        out = R.impl_escape_text(x)
+        add(f"CEscapeText {coq_str(x)} {coq_str(out)}", {"f": "escape-text", "x": x, "impl": out}, nontrivial=x != out)
     for x in VIEW_CORPUS:
         text, nt = R.html_view(x)
         add(f"CView {coq_str(x)} {coq_str(text)} {nt}", {"f": "html-view", "x": x, "text": text, "tags": nt})
@@ -144,53 +150,9 @@ def markup(text):
     return any(c in str(text) for c in "<>&")
 
 
-def hostile_sites(p):
-    """site keys at which this project puts markup-significant text into a still unescaped field
-    (full_type / full_declaration: kind and length of variables, everything of a function result)"""
-    out = []
-    allv = list(p["mod_vars"]) + list(p["tvars"])
-    for pr in p["procs"]:
-        allv += pr["args"] + pr["locals"]
-    if p["iface"]:
-        allv.append(p["iface"]["arg"])
-    for d in allv:
-        if d.get("kind") and markup(d["kind"]) or d.get("strlen") and markup(d["strlen"]):
-            out.append("macros.html:var.full_type | relurl(page_url)#1")
-    for pr in p["procs"]:
-        if pr["ret"] and markup(pr["ret"]["kind"]):
-            out.append("macros.html:proc.retvar.full_declaration | relurl(page_url)#1")
-    f = p["iface"]
-    if f and markup(G.iface_ret_text(f)):
-        out.append("macros.html:proc.retvar.full_declaration | relurl(page_url)#1")
-    return out
-
-
 def classify(pb, p, known):
-    """known-finding key of one page problem (None = not a known finding)"""
-    what, site = pb["what"], pb.get("site")
-    if what == "cell-text":
-        exp, form, col = pb["expected"], pb.get("form"), pb["column"]
-        if form == "pstmt" and col == "Initial" and any(q in exp for q in "'\""):
-            return "param-stmt-literal-masked"
-        if form == "bindattr" and col == "Attributes":
-            return "attr-literal-masked"
-        if form == "strlen" and col in ("Type", "namelist-Type") and not re.fullmatch(r"character\(len=\w+\)", exp) \
-                and not pb.get("positional", False) and "len=" in exp and not exp.startswith("character(len=kind("):
-            return "strlen-expression-truncated"
-        if site in known and markup(exp):
-            return "site:" + site
-        return None
-    if what == "heading-text" and site == "macros.html:proc.bindC | e#1":
-        if pb.get("blanks") and not pb.get("extra_tags"):
-            return "bindc-blanks-collapse"
-        return None
-    if what == "return-value":
-        if site in known and markup(pb["expected"]):
-            return "site:" + site
-        return None
-    if what in ("declaration-not-displayed", "element-structure", "page-missing-in-control"):
-        hs = hostile_sites(p)
-        return "site:" + hs[0] if hs else None
+    """known-finding key of one page problem (None = not a known finding).  Every recorded C18 finding is
+    repaired: each page problem is a violation."""
     return None
 
 
@@ -206,6 +168,7 @@ WITNESS_SRC = """module m
   integer :: arr(merge(2,3,k<n))
   integer, dimension(merge(2,3,k<n)) :: arr2
   integer(kind=kind(k<n)) :: kk
+  integer(kind=8/2) :: kslash
   character(len=2*k) :: cstar
   character(len=len('<u>')) :: clen
   character(len=5) :: p3
@@ -291,30 +254,32 @@ def witness_facts():
         r = row("arr2")
         facts["probe:macros.html:var.attribs | join(\", \") | e#1"] = r is None or "k<n" not in r
         r = row("kk")
-        facts["site:macros.html:var.full_type | relurl(page_url)#1"] = r is None or "kind(k<n)" not in R.squash(r)
+        facts["probe:macros.html:var.full_type | relurl(page_url)#1"] = r is None or "kind(k<n)" not in R.squash(r)
+        r = row("kslash")
+        facts["fixed:relurl-plain-text"] = r is None or not R.squash(r).startswith("integer(kind=8/2)")
         r, r2 = row("cstar"), row("clen")
-        facts["strlen-expression-truncated"] = (r is not None and "len=2*k" not in R.squash(r)) or \
+        facts["fixed:strlen-expression-truncated"] = (r is not None and "len=2*k" not in R.squash(r)) or \
             (r2 is not None and "'<u>'" not in r2)
         r = row("p3")
-        facts["param-stmt-literal-masked"] = r is not None and "'<b>y'" not in r
+        facts["fixed:param-stmt-literal-masked"] = r is not None and "'<b>y'" not in r
         r = row("bv")
-        facts["attr-literal-masked"] = r is not None and 'name="a<b>c"' not in r
+        facts["fixed:attr-literal-masked"] = r is not None and 'name="a<b>c"' not in r
         r = row("lit1")
         facts["probe:macros.html:var.initial|e#1"] = r is None or "'<u>x</u>'//\"a  b & c\"" not in R.squash(r) \
             or bool(soup.select("table.varlist u"))
         heads = [R.browser_text(h) for h in soup.find_all(["h2", "h3"])]
         facts["probe:macros.html:proc.bindC | e#1"] = not any('name="s<u>name"' in h for h in heads)
-        facts["bindc-blanks-collapse"] = not any('name="two  blanks"' in h for h in heads)
+        facts["fixed:bindc-blanks-collapse"] = not any('name="two  blanks"' in h for h in heads)
         rv = [R.squash(R.browser_text(h)) for h in soup.find_all(["h3", "h4"]) if R.browser_text(h).startswith("Return Value")]
-        facts["site:macros.html:proc.retvar.full_declaration | relurl(page_url)#1"] = \
+        facts["probe:macros.html:proc.retvar.full_declaration | relurl(page_url)#1"] = \
             not any("integer(kind=kind(k<n))" in x for x in rv)
         tp = BeautifulSoup(_page(doc, "type/t_t.html"), "html.parser")
         rv = [R.squash(R.browser_text(h)) for h in tp.find_all(["h3", "h4"]) if R.browser_text(h).startswith("Return Value")]
-        facts["site:macros.html:proc.retvar.full_declaration | relurl(page_url)#2"] = \
+        facts["probe:macros.html:proc.retvar.full_declaration | relurl(page_url)#2"] = \
             bool(rv) and not any("integer(kind=kind(k<n))" in x for x in rv)
         pp = BeautifulSoup(_page(doc, "proc/f.html"), "html.parser")
         rv = [R.squash(R.browser_text(h)) for h in pp.find_all(["h3", "h4"]) if R.browser_text(h).startswith("Return Value")]
-        facts["site:proc_page.html:procedure.retvar.full_declaration | relurl(page_url)#1"] = \
+        facts["probe:proc_page.html:procedure.retvar.full_declaration | relurl(page_url)#1"] = \
             bool(rv) and not any("integer(kind=kind(k<n))" in x for x in rv)
         tbh = [R.browser_text(h) for h in tp.find_all(["h2", "h3", "h4"])]
         facts["probe:macros.html:proc.bindC | e#2"] = not any('name="s<u>name"' in h for h in tbh)
@@ -322,16 +287,16 @@ def witness_facts():
                                 ("g2", "nongenint_page.html:var.strlen | e#1", "character(len=kind(k<n))"),
                                 ("g3", "nongenint_page.html:attrib | e#1", "dimension(merge(2,3,k<n))"),
                                 ("g4", "nongenint_page.html:var.dimension | e#1", "(merge(2,3,k<n))"),
-                                ("g5", "nongenint_page.html:var.proto[1] | e#1", "k<n")):
+                                ("g5", "nongenint_page.html:var.proto[1] | e#1", "(k<n)")):
             ip = BeautifulSoup(_page(doc, f"interface/{name}.html"), "html.parser")
             rv = [R.squash(R.browser_text(h)) for h in ip.find_all(["h3", "h4"]) if R.browser_text(h).startswith("Return Value")]
             facts["probe:" + key] = not rv or not any(want in x for x in rv)
         ip = BeautifulSoup(_page(doc, "interface/g6.html"), "html.parser")
         rv = [R.squash(R.browser_text(h)) for h in ip.find_all(["h3", "h4"]) if R.browser_text(h).startswith("Return Value")]
-        facts["nongenint-proto-args-parens"] = bool(rv) and not any("type(t_t(4))" in x for x in rv)
+        facts["fixed:nongenint-proto-args-parens"] = bool(rv) and not any("type(t_t(4))" in x for x in rv)
         nl = BeautifulSoup(_page(doc, "namelist/nl.html"), "html.parser")
         t = R.squash(R.browser_text(nl))
-        facts["site:macros.html:variable.full_type | relurl(page_url)#1"] = "integer(kind=kind(k<n))" not in t
+        facts["probe:macros.html:variable.full_type | relurl(page_url)#1"] = "integer(kind=kind(k<n))" not in t
         facts["probe:macros.html:variable.initial | e#1"] = "'<u>x</u>'" not in t or bool(nl.find_all("u"))
     return facts
 
@@ -395,10 +360,7 @@ def judge_cases(chk, cases, what):
             else:
                 deferred.append(payload)
         elif code & 2:
-            if region == 1 and chk.known("param-stmt-literal-masked", True):
-                chk.disagreements += 1
-            else:
-                chk.violation("failing-input", payload, True)
+            chk.violation("failing-input", payload, True)
         shown += 1
     chk._c18_deferred = deferred[:3]
 
@@ -421,8 +383,7 @@ def run(chk):
     for payload in getattr(chk, "_c18_deferred", []):
         chk.violation("broken-correspondence", payload, False)
     facts = witness_facts()
-    chk.extra["witness_replay"] = {k: ("still fails" if v else "no longer fails") for k, v in facts.items()
-                                   if not k.startswith("probe:")}
+    chk.extra["witness_replay"] = {k: ("FAILS" if v else "ok") for k, v in facts.items()}
     if "__error__" in facts:
         chk.violation("failing-input", {"what": "FORD failed on the fixed witness project", "error": facts["__error__"]}, True)
         facts = {}
@@ -447,6 +408,12 @@ def run(chk):
                                                 "case": d, "code": code, "witness_source": WITNESS_SRC}, True)
     for key, still in facts.items():
         if key.startswith("probe:"):
+            continue
+        if key.startswith("fixed:"):         # repaired defects: regression inputs, they suppress nothing
+            chk.count(("fixed-witness", key), nontrivial=True)
+            if still:
+                chk.violation("failing-input", {"what": f"repaired defect {key[6:]} is back",
+                                                "witness_source": WITNESS_SRC}, True)
             continue
         if not chk.known(key, bool(still)):
             chk.notes.append(f"witness {key} has no open entry in known_findings.d/C18.json")
